@@ -15,6 +15,7 @@ From V Require Import Gen.NodesXml Model.Xml Spec.XmlLex.
 From V Require Import Gen.Cli Model.CliModel Spec.CliDoc.
 From V Require Import Gen.Tagfilter Model.Tagfilter Spec.GfmFilter.
 From V Require Import Spec.Shape.
+From V Require Import Gen.CmGen Model.Cm.
 Extraction Language OCaml.
 Set Extraction KeepSingleton.
 
@@ -158,4 +159,8 @@ Extraction "model.ml"
   Shape.s3
   Shape.s6
   Shape.s6w
+  Cm.format_document
+  Cm.shortest_unused_sequence
+  Cm.longest_char_sequence
+  Cm.scheme_matches
 .
